@@ -25,6 +25,14 @@ ASSUMPTIONS = []
 PUB_REGS = ["queuePublishTx", "windowPublish", "windowPubRelease"]
 
 
+def _first_transmission(un, evs):
+    """The refill: an entry taken from the head of the queue and written in the same iteration is being sent for the first time,
+    which is what a request made before the CONNACK is owed - neither a failure nor a repeat."""
+    el = un.a.get("elem")
+    return un.a.get("how") == "popleft" and el is not None and any(y.kind == "WRITE" and written_object(y.a["data"])[1] == el for y in evs) \
+        and not any(y.kind == "FIRE" and isinstance(y.a["dfr"], tuple) and y.a["dfr"][0] == "attr" and y.a["dfr"][1] == el for y in evs)
+
+
 def check(ctx):
     a = ctx.a
     caps, pm, _ = capabilities(a)
@@ -121,7 +129,7 @@ def check(ctx):
                         touched = [e for e in evs if (e.kind == "WRITE" and any(isinstance(x, tuple) and x[:2] == ("elem", reg) for x in subterms(e.a["data"])))
                                    or (e.kind == "FIRE" and isinstance(e.a["dfr"], tuple) and e.a["dfr"][0] == "attr" and isinstance(e.a["dfr"][1], tuple)
                                        and e.a["dfr"][1][:2] == ("elem", reg))
-                                   or (e.kind == "UNREG" and e.a["reg"] == reg)]
+                                   or (e.kind == "UNREG" and e.a["reg"] == reg and not _first_transmission(e, evs))]
                         if not touched:
                             continue
                         carried = False
